@@ -272,6 +272,87 @@ func cmdOrder(args []string) {
 		}
 	}
 	sanVariants += siblings
+	// (2c) malformed twins: next to an entry of the list a second entry of the same kind whose value is malformed (an otherName whose
+	// inner value is an OCTET STRING, a host name with an empty label, a mailbox without '@', a URI with a space), before the
+	// list, behind it and in the middle: a rule that stops at the first entry it likes never sees the malformed one behind it.
+	twins := 0
+	for oi, t := range objs {
+		if only != "" && only != "twin:"+t.ID {
+			continue
+		}
+		fc := forged[t.ID]
+		if fc == nil || fc.FindExt(forge.OIDSAN) == nil {
+			continue
+		}
+		names := fc.NamesOfExt(forge.OIDSAN)
+		if len(names) == 0 || len(names) > 4 {
+			continue
+		}
+		doneTag := map[byte]bool{}
+		for _, nm := range names {
+			tag := nm.Tag()
+			if doneTag[tag] {
+				continue
+			}
+			doneTag[tag] = true
+			if tag != 0xa0 && only == "" && oi%4 != int(seed)%4 {
+				continue // (otherNames are rare in the corpus: every one of them gets its twin)
+			}
+			var twin *forge.Node
+			switch tag {
+			case 0xa0: // otherName ::= SEQUENCE { type-id OID, value [0] EXPLICIT ANY }
+				tw := nm.Clone()
+				if len(tw.Children) == 2 && len(tw.Children[1].Children) == 1 && tw.Children[1].Children[0].Children == nil {
+					inner := tw.Children[1].Children[0]
+					inner.Id[0] = 0x04 // an OCTET STRING where a string is expected: undecodable for every reader of the value
+					inner.Content = append([]byte("twin."), inner.Content...)
+					twin = tw
+				}
+			case forge.GNDNS:
+				twin = forge.GN(tag, append([]byte("twin.."), nm.Body()...))
+			case 0x81:
+				twin = forge.GN(tag, bytes.ReplaceAll(append([]byte("twin."), nm.Body()...), []byte("@"), []byte(".")))
+			case 0x86:
+				twin = forge.GN(tag, append([]byte("twin ://"), nm.Body()...))
+			}
+			if twin == nil {
+				continue
+			}
+			n := len(names)
+			orders := [][]*forge.Node{append(append([]*forge.Node{}, names...), twin), append([]*forge.Node{twin}, names...)}
+			if n >= 2 {
+				orders = append(orders, append(append(append([]*forge.Node{}, names[:1]...), twin), names[1:]...))
+			}
+			first := true
+			for k, o := range orders {
+				v := fc.Clone()
+				var nn []*forge.Node
+				for _, x := range o {
+					nn = append(nn, x.Clone())
+				}
+				for _, x := range v.Exts().Children {
+					if forge.ExtOID(x) == forge.OIDSAN {
+						forge.ExtValue(x).Content = forge.GeneralNames(nn...).Bytes()
+					}
+				}
+				vt := parseVariant(t, v)
+				if vt == nil {
+					continue
+				}
+				vt.ID = "twin:" + t.ID
+				if first {
+					h.objs = append(h.objs, vt)
+					first = false
+				}
+				h.lintTarget(sibSeg, vt, 0, fmt.Sprintf("malformed-twin-of-tag-%02x:order%d", tag, k), false)
+				twins++
+			}
+			if !first {
+				sibSeg++
+			}
+		}
+	}
+	sanVariants += twins
 	// (3) planted names: every unordered pair {X, Y} of the vocabulary, in both orders, on subscriber templates
 	var templates []int
 	for oi, t := range objs {
